@@ -1,5 +1,6 @@
 //! Verification harnesses for crustabri (see /verif/DESIGN.md).
 #![allow(dead_code)]
+pub mod dynamics;
 pub mod nd;
 pub mod oracle;
 pub mod spec;
@@ -10,6 +11,8 @@ pub mod util;
 mod h_layout;
 #[cfg(kani)]
 mod h_problem;
+#[cfg(kani)]
+mod h_probe2;
 #[cfg(kani)]
 mod h_static;
 #[cfg(kani)]
